@@ -1,6 +1,8 @@
 package main
 
 import (
+	"fmt"
+	"os"
 	"go/types"
 	"strings"
 
@@ -180,7 +182,10 @@ func (e *Engine) declaredMods(ct *Contract, fn *ssa.Function, sig *types.Signatu
 	}
 	defer func() {
 		if r := recover(); r != nil {
-			if _, ok := r.(unsupported); ok {
+			if u, ok := r.(unsupported); ok {
+				if os.Getenv("WV_DEBUG") != "" {
+					fmt.Fprintf(os.Stderr, "declaredMods(%s): %s\n", ct.Name, u.msg)
+				}
 				out["*"] = true
 				return
 			}
@@ -188,6 +193,10 @@ func (e *Engine) declaredMods(ct *Contract, fn *ssa.Function, sig *types.Signatu
 		}
 	}()
 	for _, m := range ct.Modifies {
+		if strings.TrimSpace(m) == "*" {
+			out["*nonghost"] = true
+			continue
+		}
 		for _, me := range fr.resolveMod(m, env, &st) {
 			out[me.heap] = true
 			if s, ok := un.heapSort[me.heap]; ok {
@@ -232,6 +241,9 @@ func (e *Engine) calleeMods(caller *ssa.Function, c *ssa.CallCommon, out map[str
 	if c.IsInvoke() {
 		key := "(" + types.TypeString(c.Value.Type(), nil) + ")." + c.Method.Name()
 		if ct := e.contracts[key]; ct != nil {
+			for _, rc := range ct.Records {
+				out["G_"+sanitize(strings.TrimPrefix(strings.TrimPrefix(rc.Kind, "records:"), "#"))] = true
+			}
 			if ct.HasMod {
 				e.declaredMods(ct, nil, c.Signature(), out)
 			} else if !ct.Pure {
@@ -244,6 +256,13 @@ func (e *Engine) calleeMods(caller *ssa.Function, c *ssa.CallCommon, out map[str
 				e.fnMods(m, nil, out)
 				return
 			}
+		}
+		if n, ok := c.Value.Type().(*types.Named); ok && (n.Obj().Pkg() == nil || !strings.HasPrefix(n.Obj().Pkg().Path(), repoModule)) {
+			// interface declared outside the repository: its implementations cannot name repo state
+			for _, a := range c.Args {
+				e.typedHavocType(a.Type(), out)
+			}
+			return
 		}
 		out["*"] = true
 		return
@@ -258,6 +277,12 @@ func (e *Engine) calleeMods(caller *ssa.Function, c *ssa.CallCommon, out map[str
 		if e.callbackMods(caller, c.Value, out) {
 			return
 		}
+		if n, ok := c.Value.Type().(*types.Named); ok && n.Obj().Pkg() != nil && !strings.HasPrefix(n.Obj().Pkg().Path(), repoModule) {
+			for _, a := range c.Args {
+				e.typedHavocType(a.Type(), out)
+			}
+			return
+		}
 		out["*"] = true
 		return
 	}
@@ -265,11 +290,28 @@ func (e *Engine) calleeMods(caller *ssa.Function, c *ssa.CallCommon, out map[str
 }
 
 func (e *Engine) callbackMods(caller *ssa.Function, v ssa.Value, out map[string]bool) bool {
-	return false
+	k := callbackKey(caller, v)
+	ct := e.callbacks[k]
+	if ct == nil {
+		return false
+	}
+	if ct.HasMod {
+		sig, _ := v.Type().Underlying().(*types.Signature)
+		e.declaredMods(ct, nil, sig, out)
+	} else if !ct.Pure {
+		out["*"] = true
+	}
+	for _, rc := range ct.Records {
+		out["G_"+sanitize(strings.TrimPrefix(strings.TrimPrefix(rc.Kind, "records:"), "#"))] = true
+	}
+	return true
 }
 
 func (e *Engine) fnMods(fn *ssa.Function, c *ssa.CallCommon, out map[string]bool) {
 	if ct := e.contractFor(fn); ct != nil {
+		for _, rc := range ct.Records {
+			out["G_"+sanitize(strings.TrimPrefix(strings.TrimPrefix(rc.Kind, "records:"), "#"))] = true
+		}
 		switch {
 		case ct.HasMod:
 			e.declaredMods(ct, fn, fn.Signature, out)
@@ -323,6 +365,13 @@ func (e *Engine) externMods(fn *ssa.Function, c *ssa.CallCommon, out map[string]
 }
 
 func (e *Engine) instrMods(fn *ssa.Function, ins ssa.Instruction, out map[string]bool, local func(*ssa.Alloc), depth int) {
+	if os.Getenv("WV_DEBUG") != "" && !out["*"] {
+		defer func() {
+			if out["*"] {
+				fmt.Fprintf(os.Stderr, "mods: * introduced in %s by %s\n", fn.Name(), ins.String())
+			}
+		}()
+	}
 	switch x := ins.(type) {
 	case *ssa.Store:
 		e.storeMods(x.Addr, out, local)
